@@ -1,0 +1,12 @@
+//go:build verif
+
+// C32: contracts for the deductive verifier in /verif (govc). Only compiled with -tags verif.
+
+package snap
+
+// the data directories of a place info are functions of the place info and the arguments (T5)
+//@ func (snap.PlaceInfo).DataDir
+//@   opaque
+
+//@ func (snap.PlaceInfo).UserDataDir
+//@   opaque
